@@ -19,8 +19,8 @@ type RateCase struct {
 	Min int64  `json:"minimum_ns"`
 }
 
-func bi(v int64) *big.Int   { return big.NewInt(v) }
-func bu(v uint64) *big.Int  { return new(big.Int).SetUint64(v) }
+func bi(v int64) *big.Int        { return big.NewInt(v) }
+func bu(v uint64) *big.Int       { return new(big.Int).SetUint64(v) }
 func mul(a, b *big.Int) *big.Int { return new(big.Int).Mul(a, b) }
 func sub(a, b *big.Int) *big.Int { return new(big.Int).Sub(a, b) }
 
